@@ -69,6 +69,11 @@ def main(argv):
         for f in ["run.py", "known_findings.json", "properties.jsonl"]:
             shutil.copy(os.path.join(ROOT, f), os.path.join(sverif, f))
         sh(["rsync", "-a", "--exclude", "target", "--exclude", "target-*", os.path.join(ROOT, "harness") + "/", os.path.join(sverif, "harness") + "/"])
+        # the scratch harness builds against the scratch repository
+        ct = os.path.join(sverif, "harness", "Cargo.toml")
+        txt = open(ct).read().replace('path = "/repo"', 'path = "%s"' % srepo)
+        open(ct, "w").write(txt)
+        lock = os.path.join(sverif, "harness", "Cargo.lock")
         env = dict(os.environ)
         env["CARGO_NET_OFFLINE"] = "true"
         env.pop("RUSTFLAGS", None)
